@@ -1,9 +1,874 @@
-//! stub — not built yet
+//! C11 — "Only traffic addressed to the interface is delivered; no replies to non-unicast".
+//!
+//! Bounded-exhaustive enumeration (E2) of a finite table; every cell is executed on a FRESH real
+//! smoltcp `Interface` + `SocketSet` (see `addr/world.rs`), the frames the stack emits are
+//! classified by an independent parser (`addr/pkt.rs`), and the rules of the statement are
+//! evaluated on every cell:
+//!
+//!  R1  traffic not addressed to the interface (Ethernet frame for another station, 802.15.4
+//!      frame for another PAN, IP packet / ARP / NS for a foreign unicast address or a multicast
+//!      group that is not joined) is delivered to no TCP/UDP/ICMP/DNS socket and is not answered:
+//!      no frame at all leaves the interface because of it.
+//!  R2  a TCP/UDP/ICMP/DNS socket only receives what matches its bound endpoint.
+//!  R3  destination broadcast/multicast, or source unspecified/broadcast/multicast  =>  no TCP RST
+//!      and no ICMP error comes out (echo replies, ARP replies, NAs, SYN-ACKs are not errors).
+//!  R4  ICMP error in or TCP RST in  =>  no ICMP error and no RST out.
+//!  R5  TCP segment to a broadcast, multicast or loopback destination (everything in this harness
+//!      arrives from the network)  =>  the `{:?}` image of every TCP socket is unchanged.
+//!
+//! Lenient readings (the statement leaves room; the oracle demands no more than is written):
+//!  * "802.15.4 frames for another PAN" is the only 802.15.4 link-layer clause of the statement:
+//!    a frame for another station's extended address inside our PAN is NOT judged by R1 (radios
+//!    normally filter it in hardware); such cells are executed and counted under
+//!    `observations.lowpan_other_station_*` only.
+//!  * Ethernet multicast destination MACs are not "another station" (a multicast frame is for
+//!    every listener); only a foreign unicast MAC triggers R1.
+//!  * unspecified and loopback IP destinations are neither "foreign unicast" nor "ours": R1 does
+//!    not judge them (R5 judges loopback for TCP as the statement says).
+//!  * R2 for an address-bound UDP socket: a datagram to a broadcast/multicast destination that
+//!    the interface accepted counts as matching (it is addressed to every address of the
+//!    interface; `udp::Socket::accepts` does this on purpose). TCP and ICMP(Udp endpoint)
+//!    address-bound sockets are judged strictly (destination == bound address), which is also
+//!    what the stack implements.
+//!  * R2 for the DNS socket: "bound endpoint" = the local port of the pending query.
+//!  * R3 "sent to a broadcast or multicast destination" is read at the IP layer only: a unicast
+//!    IP packet inside a broadcast/multicast link-layer frame is not judged (counted under
+//!    `observations.error_or_rst_for_ll_bcast_ip_unicast`).
+//!  * R3 non-unicast source = {unspecified, broadcast, multicast} exactly as listed; loopback
+//!    and the interface's own address as source are executed but not judged by R3.
+//!  * raw sockets are outside "TCP, UDP, ICMP or DNS socket": what they receive is never judged.
+//!  * The property quantifies over valid packets of supported protocols: unknown IP protocols,
+//!    extension headers, fragments are not part of this table.
+
+mod model;
+mod pkt;
+mod world;
+
 use crate::core::*;
-pub fn run(_tier: Tier) -> i32 {
-    eprintln!("harness not built yet");
-    2
+use crate::wirecheck::Addr;
+use model::*;
+use pkt::{Out, OutKind};
+use rayon::prelude::*;
+use serde_json::{json, Value};
+use smoltcp::wire::Ieee802154Address;
+use std::collections::{BTreeMap, BTreeSet};
+use std::panic::{catch_unwind, AssertUnwindSafe};
+use world::{TcpSnap, World};
+
+const R1: usize = 0;
+const R2: usize = 1;
+const R3: usize = 2;
+const R4: usize = 3;
+const R5: usize = 4;
+const RULES: [&str; 5] = ["R1", "R2", "R3", "R4", "R5"];
+
+// ---------------------------------------------------------------------------------------
+// table
+// ---------------------------------------------------------------------------------------
+
+fn two_addrs() -> bool {
+    smoltcp::config::IFACE_MAX_ADDR_COUNT >= 2
 }
-pub fn replay(_art: &serde_json::Value) -> i32 {
-    2
+
+fn ll_alphabet(m: Med) -> &'static [LlDst] {
+    match m {
+        Med::Ip => &[LlDst::NoLl],
+        Med::Eth => &[LlDst::Own, LlDst::OtherUni, LlDst::Bcast, LlDst::Mcast],
+        Med::Lowpan => &[
+            LlDst::PanOwnExtOwn,
+            LlDst::PanOwnExtOther,
+            LlDst::PanOwnShortBcast,
+            LlDst::PanBcastExtOwn,
+            LlDst::PanBcastShortBcast,
+            LlDst::PanOtherExtOwn,
+            LlDst::PanOtherShortBcast,
+        ],
+    }
+}
+
+/// Is this combination meaningful? (Everything that is not is skipped and NOT counted.)
+fn valid(c: &Cell) -> bool {
+    if c.med == Med::Lowpan && c.ver != Ver::V6 {
+        return false; // 6LoWPAN carries IPv6 only
+    }
+    if !ll_alphabet(c.med).contains(&c.ll) {
+        return false;
+    }
+    if dst_addr(c.ver, c.dst).is_none() || src_addr(c.ver, c.src).is_none() {
+        return false;
+    }
+    if c.dst == Dst::Own2 && !two_addrs() {
+        return false;
+    }
+    match c.kind {
+        Kind::Arp => {
+            // ARP: the "IP destination" is the target protocol address; there is no port
+            if c.med != Med::Eth || c.ver != Ver::V4 || !c.port_match {
+                return false;
+            }
+            if !matches!(c.dst, Dst::Own | Dst::Own2 | Dst::OtherOnLink | Dst::OffLink | Dst::SubnetBcast | Dst::Unspec) {
+                return false;
+            }
+        }
+        Kind::Ns => {
+            // port relation = "target is our address" / "target is another node's address"
+            if c.ver != Ver::V6 {
+                return false;
+            }
+        }
+        Kind::DnsResp => {
+            // needs the pending query's port, learnt from the query on the wire
+            if c.sock != Sock::Dns || !(c.primed || c.med == Med::Ip) {
+                return false;
+            }
+        }
+        _ => {}
+    }
+    if c.med == Med::Ip && !c.primed {
+        return false; // no neighbor cache on Medium::Ip: one base only
+    }
+    match c.prefix {
+        Prefix::NoPrefix => {}
+        Prefix::Teach => {
+            if c.primed || c.med == Med::Ip {
+                return false;
+            }
+        }
+        _ => {
+            if !c.primed {
+                return false;
+            }
+        }
+    }
+    true
+}
+
+struct Plan {
+    socks: Vec<Sock>,
+    joined: Vec<bool>,
+    primed: Vec<bool>,
+    prefixes: Vec<Prefix>,
+    d2_socks: Vec<Sock>,
+    d2_joined: Vec<bool>,
+}
+
+fn plan(tier: Tier) -> Plan {
+    match tier {
+        Tier::Quick => Plan {
+            socks: Sock::ALL.to_vec(),
+            joined: vec![false, true],
+            primed: vec![true, false],
+            prefixes: vec![Prefix::Teach, Prefix::SynOwn, Prefix::SynBcast, Prefix::UdpOwn],
+            d2_socks: vec![Sock::Std],
+            d2_joined: vec![true],
+        },
+        Tier::Thorough => Plan {
+            socks: Sock::ALL.to_vec(),
+            joined: vec![false, true],
+            primed: vec![true, false],
+            prefixes: vec![Prefix::Teach, Prefix::SynOwn, Prefix::SynBcast, Prefix::UdpOwn],
+            d2_socks: Sock::ALL.to_vec(),
+            d2_joined: vec![false, true],
+        },
+    }
+}
+
+fn enumerate(p: &Plan) -> Vec<Cell> {
+    let mut v = vec![];
+    let mut prefixes = vec![Prefix::NoPrefix];
+    prefixes.extend(p.prefixes.iter().copied());
+    for &prefix in &prefixes {
+        let (socks, joineds) = if prefix == Prefix::NoPrefix { (&p.socks, &p.joined) } else { (&p.d2_socks, &p.d2_joined) };
+        for &med in &[Med::Ip, Med::Eth, Med::Lowpan] {
+            for &ver in Ver::ALL {
+                for &primed in &p.primed {
+                    for &sock in socks {
+                        for &joined in joineds {
+                            for &kind in Kind::ALL {
+                                for &ll in ll_alphabet(med) {
+                                    for &dst in Dst::ALL {
+                                        for &src in Src::ALL {
+                                            for &port_match in &[true, false] {
+                                                let c = Cell { med, ver, kind, ll, dst, src, port_match, sock, joined, primed, prefix };
+                                                if valid(&c) {
+                                                    v.push(c);
+                                                }
+                                            }
+                                        }
+                                    }
+                                }
+                            }
+                        }
+                    }
+                }
+            }
+        }
+    }
+    v
+}
+
+// ---------------------------------------------------------------------------------------
+// stimulus
+// ---------------------------------------------------------------------------------------
+
+fn ll_wrap(c: &Cell, src: &Addr, dst: &Addr, proto: u8, hop: u8, l4: &[u8]) -> Vec<u8> {
+    match c.med {
+        Med::Ip => pkt::ip_packet(src, dst, proto, hop, l4),
+        Med::Eth => {
+            let mac = match c.ll {
+                LlDst::Own => MY_MAC,
+                LlDst::OtherUni => OTHER_MAC,
+                LlDst::Bcast => [0xff; 6],
+                _ => mapped_mac(dst),
+            };
+            let et = if c.ver == Ver::V4 { 0x0800 } else { 0x86dd };
+            pkt::eth(&mac, &PEER_MAC, et, &pkt::ip_packet(src, dst, proto, hop, l4))
+        }
+        Med::Lowpan => {
+            let (pan, a) = match c.ll {
+                LlDst::PanOwnExtOwn => (PAN_OWN, Ieee802154Address::Extended(MY_EXT)),
+                LlDst::PanOwnExtOther => (PAN_OWN, Ieee802154Address::Extended(OTHER_EXT)),
+                LlDst::PanOwnShortBcast => (PAN_OWN, Ieee802154Address::BROADCAST),
+                LlDst::PanBcastExtOwn => (PAN_BCAST, Ieee802154Address::Extended(MY_EXT)),
+                LlDst::PanBcastShortBcast => (PAN_BCAST, Ieee802154Address::BROADCAST),
+                LlDst::PanOtherExtOwn => (PAN_OTHER, Ieee802154Address::Extended(MY_EXT)),
+                _ => (PAN_OTHER, Ieee802154Address::BROADCAST),
+            };
+            world::lowpan_frame(pan, a, Ieee802154Address::Extended(PEER_EXT), src, dst, proto, hop, l4)
+        }
+    }
+}
+
+/// The one frame of the cell. `ack`: acknowledgement number for ACK/data segments (the stack's
+/// ISN+1 when a SYN-ACK was seen in the prefix).
+fn build_frame(c: &Cell, w: &World, ack: u32) -> Vec<u8> {
+    let a = addrs(c.ver);
+    let dst = dst_addr(c.ver, c.dst).unwrap();
+    let src = src_addr(c.ver, c.src).unwrap();
+    let icmp_proto = if c.ver == Ver::V4 { 1 } else { 58 };
+    let tcp_port = if c.port_match { TCP_PORT } else { TCP_PORT + 1 };
+    let udp_port = if c.port_match { UDP_PORT } else { UDP_PORT + 1 };
+    match c.kind {
+        Kind::Arp => {
+            let (Addr::V4(spa), Addr::V4(tpa)) = (&src, &dst) else { unreachable!() };
+            let mac = match c.ll {
+                LlDst::Own => MY_MAC,
+                LlDst::OtherUni => OTHER_MAC,
+                LlDst::Bcast => [0xff; 6],
+                _ => [0x01, 0x00, 0x5e, 0, 0, 1],
+            };
+            pkt::eth(&mac, &PEER_MAC, 0x0806, &pkt::arp_request(&PEER_MAC, spa, tpa))
+        }
+        Kind::Echo => {
+            let ident = if c.port_match { ICMP_IDENT } else { ICMP_IDENT + 1 };
+            ll_wrap(c, &src, &dst, icmp_proto, 64, &pkt::echo_request(&src, &dst, ident, 1, b"ping"))
+        }
+        Kind::IcmpErr => {
+            // "port unreachable" about a datagram we supposedly sent from our UDP port to the peer
+            let emb_src = if matches!(c.dst, Dst::Own | Dst::Own2) { dst.clone() } else { a.my.clone() };
+            let u = pkt::udp(&emb_src, &a.peer, udp_port, PEER_PORT, b"abcd");
+            let orig = pkt::ip_packet(&emb_src, &a.peer, 17, 63, &u);
+            ll_wrap(c, &src, &dst, icmp_proto, 64, &pkt::port_unreachable(&src, &dst, &orig))
+        }
+        Kind::Udp => ll_wrap(c, &src, &dst, 17, 64, &pkt::udp(&src, &dst, PEER_PORT, udp_port, b"abcd")),
+        Kind::DnsResp => {
+            let port = if c.port_match { w.dns_port } else { w.dns_port.wrapping_add(1) };
+            ll_wrap(c, &src, &dst, 17, 64, &pkt::udp(&src, &dst, 53, port, &pkt::dns_nxdomain(w.dns_txid)))
+        }
+        Kind::TcpSyn => ll_wrap(c, &src, &dst, 6, 64, &pkt::tcp(&src, &dst, PEER_PORT, tcp_port, PEER_ISN, 0, pkt::TCP_SYN, 1024, &[])),
+        Kind::TcpAck => ll_wrap(c, &src, &dst, 6, 64, &pkt::tcp(&src, &dst, PEER_PORT, tcp_port, PEER_ISN + 1, ack, pkt::TCP_ACK, 1024, &[])),
+        Kind::TcpRst => ll_wrap(c, &src, &dst, 6, 64, &pkt::tcp(&src, &dst, PEER_PORT, tcp_port, PEER_ISN + 1, 0, pkt::TCP_RST, 0, &[])),
+        Kind::TcpData => ll_wrap(
+            c,
+            &src,
+            &dst,
+            6,
+            64,
+            &pkt::tcp(&src, &dst, PEER_PORT, tcp_port, PEER_ISN + 1, ack, pkt::TCP_ACK | pkt::TCP_PSH, 1024, b"data"),
+        ),
+        Kind::Ns => {
+            let target = if c.port_match { &a.my } else { &a.other };
+            let Addr::V6(t) = target else { unreachable!() };
+            let sll: &[u8] = if c.med == Med::Lowpan { &PEER_EXT } else { &PEER_MAC };
+            ll_wrap(c, &src, &dst, 58, 255, &pkt::neighbor_solicit(&src, &dst, t, Some(sll)))
+        }
+    }
+}
+
+/// First frame of a depth-2 sequence (always from the on-link peer, link-layer destination us).
+fn prefix_frame(c: &Cell, w: &World) -> Option<Vec<u8>> {
+    let a = addrs(c.ver);
+    let base = Cell {
+        ll: match c.med {
+            Med::Ip => LlDst::NoLl,
+            Med::Eth => LlDst::Own,
+            Med::Lowpan => LlDst::PanOwnExtOwn,
+        },
+        src: Src::OnLink,
+        port_match: true,
+        ..*c
+    };
+    match c.prefix {
+        Prefix::NoPrefix => None,
+        Prefix::Teach => Some(w.teach_frame(&a.peer, &PEER_MAC, &PEER_EXT)),
+        Prefix::SynOwn => Some(build_frame(&Cell { kind: Kind::TcpSyn, dst: Dst::Own, ..base }, w, 0)),
+        Prefix::SynBcast => {
+            let dst = if c.ver == Ver::V4 { Dst::SubnetBcast } else { Dst::AllNodes };
+            let ll = match c.med {
+                Med::Ip => LlDst::NoLl,
+                Med::Eth => LlDst::Bcast,
+                Med::Lowpan => LlDst::PanOwnShortBcast,
+            };
+            Some(build_frame(&Cell { kind: Kind::TcpSyn, dst, ll, ..base }, w, 0))
+        }
+        Prefix::UdpOwn => Some(build_frame(&Cell { kind: Kind::Udp, dst: Dst::Own, ..base }, w, 0)),
+    }
+}
+
+// ---------------------------------------------------------------------------------------
+// execution + oracle
+// ---------------------------------------------------------------------------------------
+
+struct Exec {
+    prefix_hex: Option<String>,
+    prefix_outs: Vec<Out>,
+    frame_hex: String,
+    pre_images: Vec<(&'static str, String)>,
+    post_images: Vec<(&'static str, String)>,
+    pre_tcp: Option<TcpSnap>,
+    post_tcp: Option<TcpSnap>,
+    outs: Vec<Out>,
+    setup_log: Vec<String>,
+    errors: Vec<String>,
+}
+
+fn execute(c: &Cell) -> Exec {
+    let mut w = World::new(c.med, c.ver, c.sock, c.joined, c.primed);
+    let mut ack = DEFAULT_ACK;
+    let mut prefix_hex = None;
+    let mut prefix_outs = vec![];
+    if let Some(pf) = prefix_frame(c, &w) {
+        prefix_hex = Some(pkt::hex(&pf));
+        prefix_outs = w.apply(&pf);
+        for o in &prefix_outs {
+            if o.kind == OutKind::TcpSynAck {
+                if let Some((_, _, seq, _, _)) = o.l4 {
+                    ack = seq.wrapping_add(1);
+                }
+            }
+        }
+        // the first frame must be fully digested before the cell's frame is judged
+        let extra = w.poll_collect();
+        if !extra.is_empty() {
+            w.errors.push("prefix not quiescent".into());
+        }
+    }
+    let frame = build_frame(c, &w, ack);
+    let pre_images = w.images();
+    let pre_tcp = w.tcp_snap();
+    let outs = w.apply(&frame);
+    Exec {
+        prefix_hex,
+        prefix_outs,
+        frame_hex: pkt::hex(&frame),
+        pre_images,
+        post_images: w.images(),
+        pre_tcp,
+        post_tcp: w.tcp_snap(),
+        outs,
+        setup_log: std::mem::take(&mut w.setup_log),
+        errors: std::mem::take(&mut w.errors),
+    }
+}
+
+#[derive(Default)]
+struct Verdict {
+    relevant: [bool; 5],
+    viols: Vec<(usize, String, String)>, // (rule, signature, what)
+    outcome: String,
+    delivered: Vec<&'static str>,
+    /// informational observations (lenient readings), name -> 1
+    notes: Vec<&'static str>,
+}
+
+fn judge(c: &Cell, e: &Exec) -> Verdict {
+    let mut v = Verdict::default();
+    let dst = dst_addr(c.ver, c.dst).unwrap();
+    let src = src_addr(c.ver, c.src).unwrap();
+    let a = addrs(c.ver);
+    let k = c.kind.name();
+    let ver = c.ver.name();
+    let d = c.dst.name();
+
+    // ---- observations ----
+    for ((n, pre), (_, post)) in e.pre_images.iter().zip(e.post_images.iter()) {
+        if pre != post {
+            v.delivered.push(*n);
+        }
+    }
+    let mut replies: BTreeSet<String> = BTreeSet::new();
+    for o in &e.outs {
+        replies.insert(o.kind.name());
+    }
+    let err_outs: Vec<&Out> = e.outs.iter().filter(|o| o.kind.is_error_or_rst()).collect();
+    v.outcome = {
+        let mut s = String::new();
+        if !v.delivered.is_empty() {
+            s.push_str(&format!("delivered[{}]", v.delivered.join(",")));
+        }
+        if !replies.is_empty() {
+            if !s.is_empty() {
+                s.push('+');
+            }
+            s.push_str(&format!("replied[{}]", replies.iter().cloned().collect::<Vec<_>>().join(",")));
+        }
+        if s.is_empty() {
+            s.push_str("silent");
+        }
+        s
+    };
+
+    // ---- R1 ----
+    let ll_trigger = match c.ll {
+        LlDst::OtherUni => Some("other-station"),
+        LlDst::PanOtherExtOwn | LlDst::PanOtherShortBcast => Some("other-pan"),
+        _ => None,
+    };
+    let ip_foreign = match c.kind {
+        Kind::Arp => matches!(c.dst, Dst::OtherOnLink | Dst::OffLink),
+        _ => matches!(c.dst, Dst::OtherOnLink | Dst::OffLink | Dst::GroupU) || (c.dst == Dst::GroupG && !c.joined),
+    };
+    let trigger = ll_trigger.or(if ip_foreign { Some("foreign-ip") } else { None });
+    if let Some(t) = trigger {
+        v.relevant[R1] = true;
+        for s in &v.delivered {
+            v.viols.push((R1, format!("C11/R1/{}/{}/{}/{}-delivered-{}", k, ver, d, t, s), format!("not addressed to the interface ({}) but socket '{}' changed", t, s)));
+        }
+        for r in &replies {
+            v.viols.push((R1, format!("C11/R1/{}/{}/{}/{}-answered-{}", k, ver, d, t, r), format!("not addressed to the interface ({}) but a frame ({}) was emitted", t, r)));
+        }
+    }
+    if c.ll == LlDst::PanOwnExtOther {
+        if !v.delivered.is_empty() {
+            v.notes.push("lowpan_other_station_delivered");
+        } else if !replies.is_empty() {
+            v.notes.push("lowpan_other_station_answered");
+        } else {
+            v.notes.push("lowpan_other_station_silent");
+        }
+    }
+
+    // ---- R2 ----
+    if c.sock != Sock::NoSock {
+        v.relevant[R2] = true;
+    }
+    let bound = c.sock == Sock::Bound;
+    for s in &v.delivered {
+        let mismatch: Option<&str> = match *s {
+            "tcp" => {
+                let dport = if c.port_match { TCP_PORT } else { TCP_PORT + 1 };
+                match &e.pre_tcp {
+                    _ if !c.kind.is_tcp() => Some("protocol"),
+                    None => Some("protocol"),
+                    Some(t) => {
+                        if let (Some(l), Some(r)) = (&t.local, &t.remote) {
+                            if l.1 != dport || r.1 != PEER_PORT {
+                                Some("port")
+                            } else if l.0 != dst || r.0 != src {
+                                Some("addr")
+                            } else {
+                                None
+                            }
+                        } else if t.state == "Listen" {
+                            if t.listen.1 != dport {
+                                Some("port")
+                            } else if t.listen.0.as_ref().is_some_and(|x| *x != dst) {
+                                Some("addr")
+                            } else {
+                                None
+                            }
+                        } else {
+                            Some("closed-socket")
+                        }
+                    }
+                }
+            }
+            "udp" => {
+                if !matches!(c.kind, Kind::Udp) {
+                    // (a DNS response goes to the query's ephemeral port, never UDP_PORT)
+                    Some("protocol")
+                } else if !c.port_match {
+                    Some("port")
+                } else if bound && dst != a.my && !c.dst.is_bcast_mcast() {
+                    Some("addr")
+                } else {
+                    None
+                }
+            }
+            "icmp-ident" => {
+                if c.kind != Kind::Echo {
+                    Some("protocol")
+                } else if !c.port_match {
+                    Some("ident")
+                } else {
+                    None
+                }
+            }
+            "icmp-udp" => {
+                if c.kind != Kind::IcmpErr {
+                    Some("protocol")
+                } else if !c.port_match {
+                    Some("port")
+                } else if bound && dst != a.my {
+                    Some("addr")
+                } else {
+                    None
+                }
+            }
+            "dns" => {
+                if c.kind != Kind::DnsResp {
+                    Some("protocol")
+                } else if !c.port_match {
+                    Some("port")
+                } else {
+                    None
+                }
+            }
+            _ => Some("unknown-socket"),
+        };
+        if let Some(m) = mismatch {
+            v.viols.push((R2, format!("C11/R2/{}/{}/{}/delivered-{}-{}-mismatch", k, ver, d, s, m), format!("socket '{}' received a packet that does not match its endpoint ({})", s, m)));
+        }
+    }
+
+    // ---- R3 ----
+    let dst_trig = c.dst.is_bcast_mcast();
+    let src_trig = c.src.is_non_unicast();
+    if c.kind != Kind::Arp && (dst_trig || src_trig) {
+        v.relevant[R3] = true;
+        for o in &err_outs {
+            let sig = if dst_trig {
+                format!("C11/R3/{}/{}/{}/{}-sent", k, ver, d, o.kind.name())
+            } else {
+                format!("C11/R3/{}/{}/{}/src-{}/{}-sent", k, ver, d, c.src.name(), o.kind.name())
+            };
+            v.viols.push((R3, sig, format!("{} emitted in answer to a packet with destination class {} / source class {}: {}", o.kind.name(), d, c.src.name(), o.describe())));
+        }
+    } else if !err_outs.is_empty() && matches!(c.ll, LlDst::Bcast | LlDst::Mcast | LlDst::PanOwnShortBcast | LlDst::PanBcastShortBcast) {
+        v.notes.push("error_or_rst_for_ll_bcast_ip_unicast");
+    }
+
+    // ---- R4 ----
+    if matches!(c.kind, Kind::IcmpErr | Kind::TcpRst) {
+        v.relevant[R4] = true;
+        for o in &err_outs {
+            v.viols.push((R4, format!("C11/R4/{}/{}/{}/{}-sent", k, ver, d, o.kind.name()), format!("{} emitted in answer to an {}: {}", o.kind.name(), k, o.describe())));
+        }
+    }
+
+    // ---- R5 ----
+    if c.kind.is_tcp() && (c.dst.is_bcast_mcast() || c.dst == Dst::Loopback) && c.sock != Sock::NoSock {
+        v.relevant[R5] = true;
+        if v.delivered.contains(&"tcp") {
+            let (o, n) = (e.pre_tcp.as_ref().map(|t| t.state.clone()).unwrap_or_default(), e.post_tcp.as_ref().map(|t| t.state.clone()).unwrap_or_default());
+            let what = if o != n { format!("tcp-socket-{}-to-{}", o, n) } else { format!("tcp-socket-image-changed-in-{}", o) };
+            v.viols.push((R5, format!("C11/R5/{}/{}/{}/{}", k, ver, d, what), format!("TCP segment to {} ({}) changed the TCP socket: {}", d, dst, what)));
+        }
+    }
+    v
+}
+
+fn image_diff(e: &Exec) -> Vec<Value> {
+    let mut v = vec![];
+    for ((n, pre), (_, post)) in e.pre_images.iter().zip(e.post_images.iter()) {
+        if pre != post {
+            v.push(json!({"socket": n, "before": pre, "after": post}));
+        }
+    }
+    v
+}
+
+fn detail(c: &Cell, e: &Exec, what: &str) -> String {
+    let mut s = format!("{} | cell: {}", what, c.describe());
+    if let Some(p) = &e.prefix_hex {
+        s.push_str(&format!("\nfirst frame: {}\n  -> {:?}", p, e.prefix_outs.iter().map(|o| o.describe()).collect::<Vec<_>>()));
+    }
+    s.push_str(&format!("\nframe in: {}", e.frame_hex));
+    for o in &e.outs {
+        s.push_str(&format!("\nframe out: {} [{}]", o.describe(), pkt::hex(&o.raw)));
+    }
+    if let (Some(a), Some(b)) = (&e.pre_tcp, &e.post_tcp) {
+        if a != b {
+            s.push_str(&format!("\ntcp socket: {:?} -> {:?}", a, b));
+        }
+    }
+    s
+}
+
+struct CellRes {
+    verdict: Verdict,
+    /// full detail text per violation (same order as verdict.viols)
+    details: Vec<String>,
+    errors: Vec<String>,
+    panic: Option<String>,
+    frames_in: u32,
+    validated: bool,
+    obs_fp: u128,
+}
+
+fn obs_fingerprint(e: &Exec) -> u128 {
+    let outs: Vec<String> = e.outs.iter().map(|o| pkt::hex(&o.raw)).collect();
+    fp128(&(outs, &e.post_images.iter().map(|x| x.1.clone()).collect::<Vec<_>>(), &e.frame_hex))
+}
+
+fn run_cell(idx: usize, c: &Cell) -> CellRes {
+    let r = catch_unwind(AssertUnwindSafe(|| execute(c)));
+    match r {
+        Err(p) => CellRes {
+            verdict: Verdict::default(),
+            details: vec![],
+            errors: vec![],
+            panic: Some(format!("{} at {} | cell: {}", panic_msg(p), last_panic_loc(), c.describe())),
+            frames_in: 0,
+            validated: false,
+            obs_fp: 0,
+        },
+        Ok(e) => {
+            let verdict = judge(c, &e);
+            let details = verdict.viols.iter().map(|(_, _, what)| detail(c, &e, what)).collect();
+            let mut errors = e.errors.clone();
+            let fp = obs_fingerprint(&e);
+            // determinism / replayability proof on every 16th cell and on every violating cell
+            let mut validated = false;
+            if idx % 16 == 0 || !verdict.viols.is_empty() {
+                match catch_unwind(AssertUnwindSafe(|| execute(c))) {
+                    Ok(e2) if obs_fingerprint(&e2) == fp => validated = true,
+                    _ => errors.push(format!("NONDETERMINISM: re-execution differs | cell: {}", c.describe())),
+                }
+            }
+            CellRes { verdict, details, errors, panic: None, frames_in: 1 + e.prefix_hex.is_some() as u32, validated, obs_fp: fp }
+        }
+    }
+}
+
+// ---------------------------------------------------------------------------------------
+// run
+// ---------------------------------------------------------------------------------------
+
+pub fn run(tier: Tier) -> i32 {
+    let mut rep = Report::new("C11", tier);
+    rep.assumptions.push("every cell runs on a fresh Interface/SocketSet at one fixed Instant (1.000 s); no timers expire, no fragments, no IP options/extension headers; checksum offload off (stack verifies and computes all checksums)".into());
+    rep.assumptions.push("emitted Ethernet/IP frames are classified by an own parser (addr/pkt.rs, wirecheck.rs); for IEEE 802.15.4 the MAC header is parsed by own code and smoltcp::wire is used ONLY to undo IPHC/UDP-NHC compression, the reconstructed IPv6 packet is classified by the own parser".into());
+    rep.assumptions.push("delivery to a socket = the `{:?}` image of that TCP/UDP/ICMP/DNS socket differs after the frame (positive controls below prove every socket type shows deliveries); raw sockets are not judged".into());
+    rep.assumptions.push("lenient readings: see the comment block at the top of src/addr.rs (802.15.4 other station in own PAN, multicast MAC, unspecified/loopback destination under R1, bound UDP socket + broadcast, R3 at IP layer only, loopback/own source not 'non-unicast')".into());
+    rep.assumptions.push(format!("interface: one IP version per cell with {} own address(es) (IFACE_MAX_ADDR_COUNT={}), default route via an on-link gateway, PAN id 0xbeef on 802.15.4", if two_addrs() { 2 } else { 1 }, smoltcp::config::IFACE_MAX_ADDR_COUNT));
+
+    let p = plan(tier);
+    let cells = enumerate(&p);
+
+    // table dimensions
+    rep.cov(
+        "table_dimensions",
+        json!({
+            "medium": Med::ALL.iter().map(|x| x.name()).collect::<Vec<_>>(),
+            "ip_version": Ver::ALL.iter().map(|x| x.name()).collect::<Vec<_>>(),
+            "packet_kind": Kind::ALL.iter().map(|x| x.name()).collect::<Vec<_>>(),
+            "link_dst_ethernet": ll_alphabet(Med::Eth).iter().map(|x| x.name()).collect::<Vec<_>>(),
+            "link_dst_ieee802154": ll_alphabet(Med::Lowpan).iter().map(|x| x.name()).collect::<Vec<_>>(),
+            "ip_dst_class": Dst::ALL.iter().map(|x| x.name()).collect::<Vec<_>>(),
+            "ip_src_class": Src::ALL.iter().map(|x| x.name()).collect::<Vec<_>>(),
+            "port_relation": ["matching", "not-matching"],
+            "socket_configuration_depth1": p.socks.iter().map(|x| x.name()).collect::<Vec<_>>(),
+            "group_g_joined_depth1": p.joined,
+            "neighbor_cache": ["primed(peer+gateway)", "cold (ethernet/802.15.4 only)"],
+            "depth2_first_frames": p.prefixes.iter().map(|x| x.name()).collect::<Vec<_>>(),
+            "socket_configuration_depth2": p.d2_socks.iter().map(|x| x.name()).collect::<Vec<_>>(),
+            "group_g_joined_depth2": p.d2_joined,
+        }),
+    );
+    rep.cov("rule", json!("full product of the dimensions above, filtered by `valid()` (6LoWPAN => IPv6; ARP => Ethernet/IPv4, target classes own/own2/other/offlink/bcast/unspec; NS => IPv6; DNS response => std+dns sockets; address classes that do not exist for the IP version dropped; cold neighbor cache only where a cache exists; first frame 'teach' on the cold base, the other first frames on the primed base). A cell = one frame injected into a fresh interface (after the optional first frame). states = distinct (kind, version, dst class, src class, outcome) tuples; transitions = frames injected; validated = cells re-executed on a second fresh interface with byte-identical output frames and socket images."));
+
+    let results: Vec<CellRes> = cells.par_iter().enumerate().map(|(i, c)| run_cell(i, c)).collect();
+
+    // sequential, ordered aggregation (deterministic)
+    let mut per_rule_rel = [0u64; 5];
+    let mut per_rule_viol_cells = [0u64; 5];
+    let mut outcomes: BTreeMap<String, u64> = BTreeMap::new();
+    let mut outcome_by_kind: BTreeMap<String, BTreeMap<String, u64>> = BTreeMap::new();
+    let mut per_med: BTreeMap<String, u64> = BTreeMap::new();
+    let mut per_depth: BTreeMap<String, u64> = BTreeMap::new();
+    let mut delivered_per_socket: BTreeMap<String, u64> = BTreeMap::new();
+    let mut notes: BTreeMap<String, u64> = BTreeMap::new();
+    let mut sig_cells: BTreeMap<String, u64> = BTreeMap::new();
+    let mut distinct: BTreeSet<(Kind, Ver, Dst, Src, String)> = BTreeSet::new();
+    let mut obs_distinct: BTreeSet<u128> = BTreeSet::new();
+    let mut frames_in = 0u64;
+    let mut validated = 0u64;
+    let mut panics: Vec<String> = vec![];
+    let mut class_counts = [0u64; 3]; // delivered / replied / silent
+    let mut sample_outcomes: BTreeSet<String> = BTreeSet::new();
+    for (c, r) in cells.iter().zip(results.iter()) {
+        if let Some(p) = &r.panic {
+            panics.push(p.clone());
+            continue;
+        }
+        for e in &r.errors {
+            if rep.machinery_errors.len() < 20 {
+                rep.machinery_errors.push(format!("{} | cell: {}", e, c.describe()));
+            }
+        }
+        frames_in += r.frames_in as u64;
+        validated += r.validated as u64;
+        obs_distinct.insert(r.obs_fp);
+        let v = &r.verdict;
+        *outcomes.entry(v.outcome.clone()).or_insert(0) += 1;
+        *outcome_by_kind.entry(c.kind.name().to_string()).or_default().entry(v.outcome.clone()).or_insert(0) += 1;
+        *per_med.entry(format!("{}/{}", c.med.name(), c.ver.name())).or_insert(0) += 1;
+        *per_depth.entry(format!("prefix={}", c.prefix.name())).or_insert(0) += 1;
+        if !v.delivered.is_empty() {
+            class_counts[0] += 1;
+        }
+        if v.outcome.contains("replied[") {
+            class_counts[1] += 1;
+        }
+        if v.outcome == "silent" {
+            class_counts[2] += 1;
+        }
+        for s in &v.delivered {
+            *delivered_per_socket.entry(s.to_string()).or_insert(0) += 1;
+        }
+        for n in &v.notes {
+            *notes.entry(n.to_string()).or_insert(0) += 1;
+        }
+        distinct.insert((c.kind, c.ver, c.dst, c.src, v.outcome.clone()));
+        let mut rules_hit = [false; 5];
+        for i in 0..5 {
+            if v.relevant[i] {
+                per_rule_rel[i] += 1;
+            }
+        }
+        for ((rule, sig, _), det) in v.viols.iter().zip(r.details.iter()) {
+            rules_hit[*rule] = true;
+            *sig_cells.entry(sig.clone()).or_insert(0) += 1;
+            rep.violation(sig.clone(), det.clone(), json!({"type": "cell", "cell": c.to_json()}));
+        }
+        for i in 0..5 {
+            if rules_hit[i] {
+                per_rule_viol_cells[i] += 1;
+            }
+        }
+        if sample_outcomes.insert(format!("{}/{}", c.kind.name(), v.outcome)) && rep.samples.len() < 12 && c.prefix == Prefix::NoPrefix {
+            rep.samples.push(json!({"cell": c.to_json(), "outcome": v.outcome}));
+        }
+    }
+    for p in panics.iter().take(10) {
+        rep.machinery_errors.push(format!("panic while executing a cell: {}", p));
+    }
+
+    // positive controls: the observation machinery must have seen every kind of event at least
+    // once, otherwise "nothing happened" verdicts would be vacuous
+    if p.socks.contains(&Sock::Std) {
+        for s in ["tcp", "udp", "icmp-ident", "icmp-udp"] {
+            if delivered_per_socket.get(s).copied().unwrap_or(0) == 0 {
+                rep.machinery_errors.push(format!("positive control failed: no cell ever delivered to socket '{}'", s));
+            }
+        }
+    }
+    if p.socks.contains(&Sock::Dns) && delivered_per_socket.get("dns").copied().unwrap_or(0) == 0 {
+        rep.machinery_errors.push("positive control failed: no cell ever delivered to the DNS socket".into());
+    }
+    for want in ["tcp-rst", "icmp-error-3-3", "icmp-error-1-4", "echo-reply", "arp-reply", "ndisc-na", "tcp-synack"] {
+        if !outcomes.keys().any(|o| o.contains(want)) {
+            rep.machinery_errors.push(format!("positive control failed: no cell ever produced '{}'", want));
+        }
+    }
+
+    rep.add_count("states", distinct.len() as u64);
+    rep.add_count("transitions", frames_in);
+    rep.add_count("evaluations", cells.len() as u64);
+    rep.add_count("traces_validated_against_impl", validated);
+    rep.add_count("distinct_nontrivial", obs_distinct.len() as u64);
+    rep.cov("cells_executed", json!(cells.len()));
+    rep.cov("cells_per_medium_version", json!(per_med));
+    rep.cov("cells_per_first_frame", json!(per_depth));
+    rep.cov("cells_per_outcome_class", json!({"delivered_to_some_socket": class_counts[0], "some_frame_emitted": class_counts[1], "silent": class_counts[2]}));
+    rep.cov("cells_per_outcome", json!(outcomes));
+    rep.cov("outcome_by_packet_kind", json!(outcome_by_kind));
+    rep.cov("deliveries_per_socket", json!(delivered_per_socket));
+    let mut pr = serde_json::Map::new();
+    for i in 0..5 {
+        pr.insert(RULES[i].into(), json!({"relevant_cells": per_rule_rel[i], "violating_cells": per_rule_viol_cells[i]}));
+    }
+    rep.cov("per_rule", Value::Object(pr));
+    rep.cov("cells_per_signature", json!(sig_cells));
+    rep.cov("observations", json!(notes));
+    rep.cov("panics", json!(panics.len()));
+    rep.and_exhaustive(true);
+    rep.finish()
+}
+
+// ---------------------------------------------------------------------------------------
+// replay
+// ---------------------------------------------------------------------------------------
+
+pub fn replay(art: &Value) -> i32 {
+    let Some(c) = art["replay"].get("cell").and_then(Cell::from_json) else {
+        eprintln!("MACHINERY ERROR: artefact has no replayable cell");
+        return 2;
+    };
+    println!("cell: {}", c.describe());
+    if !valid(&c) {
+        eprintln!("MACHINERY ERROR: cell is not part of the table in this build");
+        return 2;
+    }
+    let e = match catch_unwind(AssertUnwindSafe(|| execute(&c))) {
+        Ok(e) => e,
+        Err(p) => {
+            println!("panic: {} at {}", panic_msg(p), last_panic_loc());
+            return 2;
+        }
+    };
+    for l in &e.setup_log {
+        println!("set-up: {}", l);
+    }
+    for l in &e.errors {
+        println!("MACHINERY ERROR: {}", l);
+    }
+    if let Some(p) = &e.prefix_hex {
+        println!("first frame in : {}", p);
+        for o in &e.prefix_outs {
+            println!("   frame out   : {} [{}]", o.describe(), pkt::hex(&o.raw));
+        }
+    }
+    println!("frame in       : {}", e.frame_hex);
+    for o in &e.outs {
+        println!("   frame out   : {} [{}]", o.describe(), pkt::hex(&o.raw));
+    }
+    if e.outs.is_empty() {
+        println!("   (no frame out)");
+    }
+    println!("tcp socket before: {:?}", e.pre_tcp);
+    println!("tcp socket after : {:?}", e.post_tcp);
+    for d in image_diff(&e) {
+        println!("socket image changed: {}", d);
+    }
+    let v = judge(&c, &e);
+    println!("outcome: {}", v.outcome);
+    let want = art["signature"].as_str().unwrap_or("");
+    let mut hit = false;
+    for (_, sig, what) in &v.viols {
+        println!("violation: {} :: {}", sig, what);
+        if sig == want || want.is_empty() {
+            hit = true;
+        }
+    }
+    if !e.errors.is_empty() {
+        return 2;
+    }
+    if hit {
+        1
+    } else {
+        println!("no violation with signature '{}' on replay", want);
+        0
+    }
 }
